@@ -15,8 +15,15 @@ namespace Operon.Lysosome
 /-! ### the environment's digester call -/
 
 theorem pyCall_fst (cfg : Cfg) (it : Item) :
-    (pyCallDigester cfg it).1 = if succeeds cfg it then some ((keysOf cfg it).map fun k => (k, it)) else none := by
-  unfold pyCallDigester succeeds keysOf
+    (pyCallDigester cfg it).1 =
+      match (digestOne cfg it).1 with
+      | .ret ks => some (.dict (ks.map fun k => (k, it)))
+      | .raise => none
+      | .bad ks => some (.unmergeable (ks.map fun k => (k, it))) := rfl
+
+/-- the three things a digester can do -/
+theorem out_cases (cfg : Cfg) (it : Item) : (∃ ks, (digestOne cfg it).1 = .ret ks) ∨ (digestOne cfg it).1 = .raise ∨
+    ∃ ks, (digestOne cfg it).1 = .bad ks := by
   cases (digestOne cfg it).1 <;> simp
 
 theorem pyCall_snd (cfg : Cfg) (it : Item) :
@@ -26,15 +33,15 @@ theorem pyCall_snd (cfg : Cfg) (it : Item) :
 
 /-- one iteration of the emergency digest's loop -/
 def emIter (cfg : Cfg) (s : PyS) (it : Item) : PyS :=
-  if succeeds cfg it then
+  if succeedsEm cfg it then
     { s with toxicLog := s.toxicLog ++ (if callsToxic cfg it then [it] else []), digested := s.digested + 1 }
   else
     { s with toxicLog := s.toxicLog ++ (if callsToxic cfg it then [it] else []), emLogged := s.emLogged + 1 }
 
 def emClosed (cfg : Cfg) (l : List Item) (s : PyS) : PyS :=
-  { s with digested := s.digested + (l.filter (succeeds cfg)).length
+  { s with digested := s.digested + (l.filter (succeedsEm cfg)).length
            toxicLog := s.toxicLog ++ l.filter (callsToxic cfg)
-           emLogged := s.emLogged + (l.filter fun it => !succeeds cfg it).length }
+           emLogged := s.emLogged + (l.filter fun it => !succeedsEm cfg it).length }
 
 @[simp] theorem emClosed_queue (cfg : Cfg) (l : List Item) (s : PyS) : (emClosed cfg l s).queue = s.queue := rfl
 @[simp] theorem emClosed_clock (cfg : Cfg) (l : List Item) (s : PyS) : (emClosed cfg l s).clock = s.clock := rfl
@@ -52,7 +59,7 @@ theorem foldl_emIter (cfg : Cfg) : ∀ (l : List Item) (s : PyS), l.foldl (emIte
     intro s
     rw [List.foldl_cons, ih]
     unfold emIter emClosed
-    by_cases h1 : succeeds cfg it <;> by_cases h2 : callsToxic cfg it <;>
+    by_cases h1 : succeedsEm cfg it <;> by_cases h2 : callsToxic cfg it <;>
       simp [h1, h2, List.filter_cons, Nat.add_assoc, Nat.add_comm 1]
 
 /-- a loop whose body is pointwise the canonical one -/
@@ -63,7 +70,9 @@ theorem foldl_em (cfg : Cfg) (f : PyS → Item → PyS) (hf : ∀ s it, f s it =
 
 abbrev DigAcc := PyS × List (Nat × Item) × List Unit × Nat
 
-/-- one iteration of `digest`'s loop on (object, `recycled`, `errors`, `disposed`) -/
+/-- one iteration of `digest`'s loop on (object, `recycled`, `errors`, `disposed`); an item that is not counted (its
+    digester raised, or handed back something `recycled.update` cannot merge) is an error, and whatever the failed
+    merge had already put into `recycled` stays there (`keysOf` is `[]` for a digester that raised) -/
 def digIter (cfg : Cfg) (acc : DigAcc) (it : Item) : DigAcc :=
   if succeeds cfg it then
     ({ acc.1 with toxicLog := acc.1.toxicLog ++ (if callsToxic cfg it then [it] else [])
@@ -72,14 +81,14 @@ def digIter (cfg : Cfg) (acc : DigAcc) (it : Item) : DigAcc :=
      dictUpdate acc.2.1 ((keysOf cfg it).map fun k => (k, it)), acc.2.2.1, acc.2.2.2 + 1)
   else
     ({ acc.1 with toxicLog := acc.1.toxicLog ++ (if callsToxic cfg it then [it] else []) },
-     acc.2.1, acc.2.2.1 ++ [()], acc.2.2.2)
+     dictUpdate acc.2.1 ((keysOf cfg it).map fun k => (k, it)), acc.2.2.1 ++ [()], acc.2.2.2)
 
 def digClosed (cfg : Cfg) (l : List Item) (acc : DigAcc) : DigAcc :=
   let oks := l.filter (succeeds cfg)
   ({ acc.1 with toxicLog := acc.1.toxicLog ++ l.filter (callsToxic cfg)
                 recycled := acc.1.recycled + (oks.filter fun it => !(keysOf cfg it).isEmpty).length
                 digested := acc.1.digested + oks.length },
-   dictUpdate acc.2.1 (oks.flatMap fun it => (keysOf cfg it).map fun k => (k, it)),
+   dictUpdate acc.2.1 (l.flatMap fun it => (keysOf cfg it).map fun k => (k, it)),
    acc.2.2.1 ++ List.replicate (l.filter fun it => !succeeds cfg it).length (),
    acc.2.2.2 + oks.length)
 
@@ -293,7 +302,7 @@ theorem emergency_toxG (cfg : Cfg) (s : State) (h : ToxInvG cfg s) : ToxInvG cfg
   · exact h
   · intro it
     have h0 := h it
-    have h2 := count_filter_split (succeeds cfg) (s.queue.take (s.queue.length / 2)) it
+    have h2 := count_filter_split (succeedsEm cfg) (s.queue.take (s.queue.length / 2)) it
     have h3 := count_filter_ite (callsToxic cfg) (s.queue.take (s.queue.length / 2)) it
     simp only [List.count_append]
     cases ht : callsToxic cfg it
